@@ -1329,6 +1329,13 @@ fn rewrite_string_lit(context: &RewriteContext<'_>, span: Span, shape: Shape) ->
         }
     }
 
+    // A literal that does not end with its closing quote carries a suffix (`"abc"suffix`, accepted
+    // by the parser and rejected later): there is no telling where the text ends, leave it alone.
+    if !string_lit.ends_with('"') {
+        return wrap_str(string_lit.to_owned(), context.config.max_width(), shape)
+            .max_width_error(shape.width, span);
+    }
+
     // Remove the quote characters.
     let str_lit = &string_lit[1..string_lit.len() - 1];
 
